@@ -832,6 +832,27 @@ class FnAnalysis(Analysis):
             return Val(kind="bytes" if isinstance(r, bytes) else "str", lb=len(r), exact=len(r), cv=r)
         return None
 
+    def struct_const_fmt(self, recv_expr) -> Optional[str]:
+        """Format of a module / class level constant  X = struct.Struct("<fmt>")  that recv_expr names (cls.X, self.X, X, Class.X)."""
+        node = None
+        if isinstance(recv_expr, ast.Name) and recv_expr.id not in getattr(self, "_local_names", ()):
+            node = self.prog.module_assigns(self.m).get(recv_expr.id)
+        elif isinstance(recv_expr, ast.Attribute) and isinstance(recv_expr.value, ast.Name):
+            c = None
+            if self.recv and recv_expr.value.id == self.recv:
+                c = self.self_cls or self.fn.cls
+            else:
+                r = self.prog.resolve_name(self.m, recv_expr.value.id, self.fn.cls)
+                c = r if isinstance(r, ClassInfo) else None
+            if c is not None:
+                a = self.prog.lookup_class_attr(c, recv_expr.attr)
+                node = a[1] if a is not None else None
+        if isinstance(node, ast.Call) and node.args and isinstance(node.args[0], ast.Constant) and isinstance(node.args[0].value, str):
+            r = self.prog.resolve_expr(self.m, node.func, self.fn.cls)
+            if getattr(r, "name", None) == "struct.Struct":
+                return node.args[0].value
+        return None
+
     def has_attribute(self, c: ClassInfo, name: str) -> bool:
         """Instances of c have attribute `name`: a method / property / class attribute / nested class anywhere in the MRO, or an
         instance attribute assigned in a method of the MRO; classes with bases outside the package or __getattr__ are not judged."""
@@ -1438,6 +1459,24 @@ class FnAnalysis(Analysis):
                 self.pending.append(Exc("OSError").with_(site=self.site(e), chain=self.chain, why="connect failure surfaces at the awaited wait_for (environment)"))
         if name == "asyncio.wait_for":
             return a0 if a0.kind not in ("coro:conn",) else Val(False, "list", 2, 2)
+        # ---- precompiled struct.Struct constants: S.unpack_from(buf[, off]) is struct.unpack_from(fmt, buf[, off])
+        if meth is not None and meth[1] in ("unpack_from", "unpack") and isinstance(e.func, ast.Attribute):
+            fmt = self.struct_const_fmt(e.func.value)
+            if fmt is not None:
+                buf = argv[0] if argv else CLEAN
+                if buf.taint:
+                    try:
+                        size = _struct.calcsize(fmt)
+                    except _struct.error:
+                        size = None
+                    off = self.cint(e.args[1]) if (meth[1] == "unpack_from" and len(e.args) > 1) else 0
+                    if meth[1] == "unpack" and size is not None and buf.exact == size:
+                        self.raiser(e, "struct.error", "", proved=f"exactly {size} bytes")
+                    elif meth[1] == "unpack_from" and size is not None and off is not None and off >= 0 and buf.lb >= off + size:
+                        self.raiser(e, "struct.error", "", proved=f"buffer length >= {buf.lb} >= offset {off} + {size}")
+                    else:
+                        self.raiser(e, "struct.error", f"Struct({fmt!r}).{meth[1]} on peer data whose length is only known to be >= {buf.lb}")
+                return Val(buf.taint, "list", elem=Val(buf.taint, "any"))
         # ---- builtins and library functions
         if meth is None or ext:
             if name == "dict" and not e.args and e.keywords and all(k.arg for k in e.keywords):
@@ -1598,6 +1637,11 @@ class FnAnalysis(Analysis):
                 return Val(taint, "str")
             if mname in BYTES_RESULT_METHODS:
                 return Val(taint, "bytes")
+            if mname in ("get", "find") and taint:
+                # mapping.get(key[, default]) / Element.get / Element.find on peer-controlled content: absent -> None (or the default)
+                dflt = argv[1] if (mname == "get" and len(argv) > 1) else (kwv.get("default") if mname == "get" else None)
+                none = dflt is None or dflt.may_none or dflt.kind == "none"
+                return Val(taint, "any", elem=recv.elem, may_none=none)
             if mname in ("get", "items", "keys", "values", "find", "findall", "copy"):
                 return Val(taint, "any", elem=recv.elem)
             if mname in ("append", "extend", "add", "update", "insert", "put_nowait"):
